@@ -229,7 +229,14 @@ pub fn mutate(s: &[u8], u: &mut U) -> Vec<u8> {
     let rounds = 1 + u.below(4);
     for _ in 0..rounds {
         let pos = if v.is_empty() { 0 } else { u.below(v.len()) };
-        match u.below(12) {
+        match u.below(13) {
+            12 if !v.is_empty() => {
+                // cut the text off and end it with a character that opens something (an escape, a string, a
+                // container): scanners that look one character ahead run past the end here
+                v.truncate(pos);
+                let tail: &[u8] = [&b"\\"[..], b"\"", b"\\u", b"\\u00", b"{", b"[", b",", b":", b"\"\\", b"/", b"'", b"0x", b"-", b"e", b"."][u.below(15)];
+                v.extend_from_slice(tail);
+            }
             0 if !v.is_empty() => {
                 v.remove(pos);
             }
@@ -840,6 +847,28 @@ fn judge_cli(c: &CliCase, cls: &mut Classifier) -> Verdict {
     Ok(())
 }
 
+/// Commands at a terminal: standard input, output AND error are pseudo-terminals (what a user at a shell prompt
+/// has; progress displays and prompts switch on there). Judged: no panic, no abnormal end.
+#[derive(Clone, Debug, Serialize, Deserialize)]
+pub struct TtyCliCase {
+    pub args: Vec<String>,
+}
+
+fn judge_tty_cli(c: &TtyCliCase, cls: &mut Classifier) -> Verdict {
+    let Some(exe) = CLI.get() else { return fail("cli path", "none", "CLI not available") };
+    let args: Vec<&str> = c.args.iter().map(String::as_str).collect();
+    let Some(out) = cli::run_all_tty(exe, &args) else {
+        cls.label("tty-not-available-or-timeout");
+        return Ok(());
+    };
+    if out.panicked() {
+        return fail("exit 0, 2 or 255 without a panic message", out.describe(), format!("`hdwallet {}` with standard input, output and error on a terminal", c.args.join(" ")));
+    }
+    cls.label("terminal");
+    cls.nontrivial(&("tty", &c.args));
+    Ok(())
+}
+
 // ================================================================= layer 2: corpus replay
 
 pub fn run(ctx: &mut Ctx) {
@@ -858,6 +887,23 @@ pub fn run(ctx: &mut Ctx) {
     if CLI.get().map(|p| p.exists()).unwrap_or(false) {
         ctx.shrink_iters = 150;
         ctx.run_prop("cli", t.pick(5000, 30_000), || crate::gen::tape(1200).prop_map(gen_cli), judge_cli);
+        // at a terminal (all three standard streams): searches that reject well over 64 candidates, plain commands
+        let tphrase = bip39::encode_phrase(&[0x44u8; 16]);
+        let mut tcases: Vec<TtyCliCase> = vec![];
+        for (pfx, j) in [("0xab", "0"), ("0xAB", "1"), ("0x12", "2"), ("0xf0", "16"), ("0x7", "1"), ("0x123", "4")] {
+            tcases.push(TtyCliCase { args: vec!["new".into(), "--vanity-prefix".into(), pfx.into(), "-j".into(), j.into()] });
+        }
+        tcases.push(TtyCliCase { args: vec!["new".into()] });
+        tcases.push(TtyCliCase { args: vec!["new".into(), "-n".into(), "24".into()] });
+        tcases.push(TtyCliCase { args: vec!["address".into(), "--mnemonic".into(), tphrase.clone()] });
+        tcases.push(TtyCliCase { args: vec!["export".into(), "--mnemonic".into(), tphrase.clone(), "--account-index".into(), "3".into()] });
+        tcases.push(TtyCliCase { args: vec!["sign".into(), "--mnemonic".into(), tphrase, "raw".into(), format!("0x{}", "11".repeat(32))] });
+        tcases.push(TtyCliCase { args: vec!["--help".into()] });
+        tcases.push(TtyCliCase { args: vec!["new".into(), "--bogus".into()] });
+        ctx.run_cases("terminal", &tcases[..t.pick(tcases.len() - 1, tcases.len())], judge_tty_cli);
+        if ctx.cls.count("tty-not-available-or-timeout") > 0 {
+            ctx.inconclusive(format!("{} terminal runs could not be made", ctx.cls.count("tty-not-available-or-timeout")));
+        }
         // very deep derivation paths (no depth bound is stated for paths): a derivation written recursively runs
         // out of stack; 40000 components still fit into one argument
         let phrase = bip39::encode_phrase(&[0x33u8; 16]);
@@ -921,6 +967,7 @@ pub fn replay(sub: &str, case: &Value) -> Option<Verdict> {
     match sub {
         "library" | "corpus" | "fuzz" => Some(replay_as::<LibCase>(case, judge_lib_auto)),
         "cli" | "cli-plain" => Some(replay_as::<CliCase>(case, judge_cli)),
+        "terminal" => Some(replay_as::<TtyCliCase>(case, judge_tty_cli)),
         _ => None,
     }
 }
